@@ -175,7 +175,40 @@ func (g *Gen) nullClauseFamilies() {
 	}
 }
 
+// enumFunctionFamilies: string functions - built-in names of the evaluation context, exported functions of package
+// function, user functions - applied to ENUM columns, whose cells are handed to the function out of the
+// column's shared value table: the table, the receiver and every frame sharing the column stay as they were
+func (g *Gen) enumFunctionFamilies() {
+	for rep := 0; rep < g.pick(12, 120); rep++ {
+		n := 3 + g.rng.Intn(5)
+		vals := make([]*BS, n)
+		for i := range vals {
+			if g.rng.Intn(7) != 0 {
+				vals[i] = bsp(g.oneOf([]string{"ab", "Ab", "AB", "b", "B", "éa", ""}))
+			}
+		}
+		g.begin("functions on enum columns")
+		f := g.do(Step{Op: "New", Recv: -1, HasOrder: true, ColOrder: bsList([]string{"E", "X"}), HasEnums: true,
+			Enums: []EnumDecl{{Name: toBS("E"), Vals: bsList([]string{"b", "B", "ab", "Ab", "AB", "éa", ""})}, {Name: toBS("X"), Vals: nil}},
+			Data:  []ColData{{Name: toBS("E"), Kind: "string", Strs: vals}, {Name: toBS("X"), Kind: "string", Strs: vals}}})
+		sib := g.do(Step{Op: "Slice", Recv: f, A: 1, B: n})
+		for _, col := range []string{"E", "X"} {
+			for _, op := range []string{"upper", "lower", "str", "bang"} {
+				e := Expr{K: "call", Op: op, Args: []Expr{{K: "col", Name: toBS(col)}}}
+				g.do(Step{Op: "Eval", Recv: g.oneOf2(f, sib), Dst: toBS(g.oneOf([]string{"V", col})), Expr: &e, Ctx: userCtx})
+			}
+			for _, sym := range []string{"UpperS", "LowerS", "StrS", "nilIfEmptyS"} {
+				g.do(Step{Op: "Apply", Recv: g.oneOf2(f, sib), Instrs: []Instr{{Fn: FnRef{K: "fn1", Sym: sym}, Dst: toBS(g.oneOf([]string{"W", col})), Src1: toBS(col)}}})
+			}
+			g.do(Step{Op: "Apply", Recv: f, Instrs: []Instr{{Fn: FnRef{K: "fn2", Sym: "ConcatS"}, Dst: toBS("C"), Src1: toBS(col), Src2: toBS(col)}}})
+		}
+		g.do(Step{Op: "Equals", Recv: f, Other: g.do(Step{Op: "Rebuild", Recv: f})})
+		g.end()
+	}
+}
+
 func genC01(g *Gen) {
+	g.enumFunctionFamilies()
 	g.nullClauseFamilies()
 	for rep := 0; rep < g.pick(30, 300); rep++ {
 		g.begin("sibling column additions")
